@@ -63,7 +63,7 @@ CHECKS = {
     "C10": dict(
         category="exploration", design_ref="DESIGN.md §3.9, §4 C10",
         technique="TLA+ exists-a-split semantics of IRDL operation definitions (OpDefVerify.tla) evaluated by TLC as reference for verify() and the generated accessors of dynamically created real op classes",
-        text="Seeded definitions (operand/result/region segments single/optional/variadic, constraints any/eq/shared type variable, options none/same-size/attribute-sized) become real classes through irdl_op_definition; raw instances (incl. missing, wrong-length, negative and non-summing size arrays) are verified for real and TLC decides Accepts by enumerating segment splits and variable bindings; constructor-built instances must verify; each accessor must return the segment of the unique split TLC computes. The segment structure of every IRDL operation of every registered dialect is checked one-sidedly against raw instances with arbitrary counts and size arrays: where TLC finds no admissible split, verify() must reject.",
+        text="Seeded definitions (operand/result/region segments single/optional/variadic, constraints any/eq/shared type variable, segment lengths bound to shared integer variables, options none/same-size/attribute-sized) become real classes through irdl_op_definition; raw instances (incl. missing, wrong-length, negative, non-summing and sum-preserving near-miss size arrays) are verified for real and TLC decides Accepts by enumerating segment splits and variable bindings; constructor-built instances must verify; each accessor must return the segment of the unique split TLC computes. The segment structure of every IRDL operation of every registered dialect is checked one-sidedly against raw instances with arbitrary counts and size arrays: where TLC finds no admissible split, verify() must reject.",
         note="Trusted: OpDefVerify.tla; successor segments and attribute/property constraints other than the size arrays are not generated; definitions the library refuses at class creation are skipped."),
     "C09": dict(
         category="exploration", design_ref="DESIGN.md §3.9, §4 C09",
@@ -98,7 +98,7 @@ CHECKS = {
     "C17": dict(
         category="exploration", design_ref="DESIGN.md §3.3, §4 C17",
         technique="TLA+ pass-contract state machine (PassContract.tla: ApplyOk must re-establish validity, ApplyRaised is reported failure) whose post-state predicate - verify flag, C01 pointer-walk predicate of IRProj.tla, no erased/detached operand, no dangling successor, operands defined in an enclosing region, printed form re-parses - is evaluated by TLC on recorded histories of real pass runs",
-        text="Every registered pass is applied to corpus chunks: the RUN-line pipelines of its own filecheck inputs pass by pass, and the cross product pass x foreign chunk with default options and option sets seen in RUN lines (thorough: all 440k combinations; quick: a seeded sample of 20000), schedule_space instances, and generated func/arith/scf/cf programs through random pipelines of 1-3 passes. Each successful application is an event with verify()/re-parse outcome and (for changed modules <= 60 ops) the pointer-walk projection; TLC accepts or rejects the history.",
+        text="Every registered pass is applied to corpus chunks: the RUN-line pipelines of its own filecheck inputs pass by pass, and the cross product pass x foreign chunk with default options and option sets seen in RUN lines (thorough: all 440k combinations; quick: a seeded sample of 20000), schedule_space instances, generated func/arith/scf/cf programs through random pipelines of 1-3 passes, an idiom family (both-constant and identity operands for every foldable op), and dominance-respecting cf CFGs with pass-through blocks, loops and block arguments read in dominated blocks through canonicalize / dce / cse. Each successful application is an event with verify()/re-parse outcome and (for changed modules <= 60 ops) the pointer-walk projection; TLC accepts or rejects the history.",
         note="Trusted: IRProj/PassContract predicates; projection; 'parses back' decided on the generic format (custom-format-only failures are divergences, C05 is not applicable). Exceptions are reported failure; 30 s timeouts are divergences. 35 (pass, clause) defect classes of the unchanged tree are listed as open findings with their diagnostics."),
     "C27": dict(
         category="exploration", design_ref="DESIGN.md §4 C27",
@@ -113,7 +113,7 @@ CHECKS = {
     "C23": dict(
         category="exploration", design_ref="DESIGN.md §4 C23",
         technique="TLA+ semantics of the llvm dialect's integer / branch / stack-slot ops (Machine.tla LLVMEval, poison = no obligation) executed by TLC to judge the results of natively executed code produced by the real backend (LLVM verifier + MCJIT via llvmlite)",
-        text="Generated llvm-dialect integer functions (binary ops with nsw/nuw/exact/disjoint flags, ten icmp predicates, zext/sext/trunc with nneg/nsw/nuw, select, alloca/store/load, diamonds with block arguments incl. both edges into one block, counted loops with loop-carried block arguments; i1-i64) are translated by xdsl.backend.llvm, parsed and verified by LLVM (rejection = violation), JIT-compiled and called on boundary/random arguments in a forked child; TLC runs the function under Machine.tla and compares every defined result; a corrupted-result negative control must be rejected.",
+        text="Generated llvm-dialect integer functions (binary ops with nsw/nuw/exact/disjoint flags, ten icmp predicates, zext/sext/trunc with nneg/nsw/nuw, select, alloca/store/load with constant and block-computed element counts, diamonds with block arguments incl. both edges into one block, counted loops with loop-carried block arguments; i1-i64) are translated by xdsl.backend.llvm, parsed and verified by LLVM (rejection = violation), JIT-compiled and called on boundary/random arguments in a forked child; TLC runs the function under Machine.tla and compares every defined result; a corrupted-result negative control must be rejected.",
         note="Trusted: LLVMEval in Machine.tla (built on BV.tla, self-checked in BVCheck.tla); llvmlite's LLVM; the host CPU. Floats, vectors, calls, GEP, globals are not generated. One open finding (cond_br with both edges to one block)."),
     "C21": dict(
         category="translation_validation", design_ref="DESIGN.md §4 C21",
